@@ -55,6 +55,17 @@ func genBBOrder(t *rapid.T) bbOrderCase {
 	c := bbOrderCase{AbsID: rapid.IntRange(0, 1).Draw(t, "absid"), Trim: rapid.IntRange(0, 3).Draw(t, "trim") == 0}
 	c.Pkg, c.Tests = genBBTests(t, 2)
 	c.Only = rapid.IntRange(0, len(c.Tests)-1).Draw(t, "only")
+	if !c.Trim && rapid.IntRange(0, 2).Draw(t, "chdir") == 0 {
+		// one of the tests changes the working directory of the process and never restores it (not with -trimpath builds,
+		// whose relative locations depend on the working directory by documented design)
+		i := rapid.IntRange(0, len(c.Tests)-1).Draw(t, "chdirtest")
+		step := Step{Op: "chdir"}
+		if rapid.Bool().Draw(t, "chdirfirst") {
+			c.Tests[i].Steps = append([]Step{step}, c.Tests[i].Steps...)
+		} else {
+			c.Tests[i].Steps = append(c.Tests[i].Steps, step)
+		}
+	}
 	return c
 }
 
@@ -165,11 +176,24 @@ func classifyBBOrder(c bbOrderCase) ([]string, bool) {
 	if c.Trim {
 		cls = append(cls, "trimpath_build")
 	}
+	for _, bt := range c.Tests {
+		for _, st := range bt.Steps {
+			if st.Op == "chdir" {
+				cls = append(cls, "a_test_changes_the_working_directory")
+			}
+		}
+	}
 	return uniqStrings(cls), len(files) >= 2
 }
 
 func TestC12BB_TestOrderIndependence(t *testing.T) {
 	prop[bbOrderCase]{property: "C12", gen: genBBOrder, check: checkBBOrder, classify: classifyBBOrder}.run(t)
+}
+
+// C03: "... its k-th Match* call on a given snapshot file always addresses slot (N, k) of that file, no matter which other
+// tests ran before it": the same relation (all tests of the program versus the test alone) judged for C03.
+func TestC03BB_SlotsIndependentOfOtherTests(t *testing.T) {
+	prop[bbOrderCase]{property: "C03", gen: genBBOrder, check: checkBBOrder, classify: classifyBBOrder}.run(t)
 }
 
 // ---- C01: cross-build replay -------------------------------------------------------------------------------
